@@ -344,6 +344,7 @@ def run(chk):
         return True, "", [shown[0].loc]
     chk.ob("C16.R3:fmt-flags-verbatim", "#[emit::fmt] hands its flags to the generated format string unchanged", fmt_flags_verbatim)
 
+    common.builder_rules(chk, P, "C16", lambda b: b.key.startswith("emit_core::template::Render::<"), 1)
     # macro/runtime boundary: what the expansion passes at each named hook parameter (read off emit_macros' quote! templates)
     from . import quotes
     quotes.boundary_rule(chk, P, "C16", {"__private_format", "__private_emit", "__private_evt"}, 4)
